@@ -21,7 +21,7 @@ KINDS = ["basic", "hook", "ctl"]
 BEHS = ["sleep", "ignore", "fork", "exit0", "exit3", "crash", "noready", "stuck"]
 REQS = ["CONFIGURE", "START", "STOP", "Trigger", "Kill"]
 INSTS = ["launching", "nochild", "starting", "polling", "running", "exiting", "reaped"]
-NTHS = [1, 2, 3, 4, 5, 6]
+NTHS = [1, 2]   # first / repeated request of its type
 INVS = ["OneTerminal", "KilledNotFailed", "NoSurvivors", "ExecutorSurvives"]
 IMPL = {"basic": "basicTaskBase", "hook": "basicTaskBase", "ctl": "ControllableTask"}
 WORKERS = min(4, vlib.NCPU)
@@ -252,7 +252,7 @@ def run(ctx):
         s = by_id.get(scn, {})
         observed.setdefault(scn, set()).add(inv)
         sig = {"inv": inv, "kind": s.get("kind"), "impl": IMPL.get(s.get("kind")), "beh": s.get("beh"), "r": det[0], "inst": det[1],
-               "nth": det[2], "site": det[3]}
+               "nth": min(det[2], 2), "site": det[3]}
         key = (scn, json.dumps(sig, sort_keys=True))
         if key in seen:
             continue
